@@ -16,7 +16,7 @@ RULE = ("the client runs against an interactive fake board (python) whose every 
         "non-trivial = a motors_enable request from an enabled prior state, or an int32 with a non-zero high byte")
 TRUSTED = ["the EBB board model Spec/Board.v (SL/QL/ST/QT/EM/QE/CU as documented in the repository's docstrings): assumed, no firmware source offline",
            "the python fake board is validated against Spec/Board.v on every run (code 4 on any difference)"]
-ASSUMPTIONS = ["int32 values in [-2^31, 2^31), slots 0..28; the board answers every request at once"]
+ASSUMPTIONS = ["int32 values in [-2^31, 2^31), slots 0..28; the board answers every request, at once or after up to 25 timed-out reads"]
 
 class PyBoard:
     """independent python implementation of the documented board behaviour"""
@@ -53,16 +53,19 @@ class PyBoard:
         return "!8 Err: Unknown command"
 
 class BoardPort:
-    def __init__(self, board):
+    def __init__(self, board, slow=0):
         self.board, self.queue, self.log, self.writes = board, [], [], []
+        self.slow = slow                      # reads that time out before each reply arrives (a busy board, a slow USB hub)
     def write(self, data):
         self.log.append("E"); self.writes.append(data)
         t = data.decode("ascii")
-        self.queue.append(self.board.step(t[:-1] if t.endswith("\r") else t))
+        self.queue += [None] * self.slow + [self.board.step(t[:-1] if t.endswith("\r") else t)]
         return len(data)
     def readline(self):
         if self.queue:
-            r = self.queue.pop(0); self.log.append(("L", r)); return r.encode("ascii") + b"\r\n"
+            r = self.queue.pop(0)
+            if r is None: self.log.append("E"); return b""
+            self.log.append(("L", r)); return r.encode("ascii") + b"\r\n"
         self.log.append("E"); return b""
     def close(self): pass
     def reset_input_buffer(self): pass
@@ -128,11 +131,15 @@ def generate(rng, tier):
             elif k < 0.9: calls += [("motors_on", rng.randint(-1, 6), rng.randint(-1, 6)), ("motors_query",)]
             else: calls.append(("motors_off",))
         cases.append({"board": _board(rng), "calls": calls, "family": "sequence"})
+    # a board that answers correctly but late: 1..25 reads time out before every reply (the client waits through up to 25)
+    for c in list(cases):
+        if rng.random() < 0.3:
+            cases.append(dict(c, slow=rng.choice([1, 3, 4, 5, 10, 24, 25]), family=c["family"] + "/slow-board"))
     return cases
 
 def run_impl(c):
     bd = c["board"]
-    port = BoardPort(PyBoard(bd["slots"], bd["nick"], bd["en1"], bd["en2"], bd["mode"]))
+    port = BoardPort(PyBoard(bd["slots"], bd["nick"], bd["en1"], bd["en2"], bd["mode"]), c.get("slow", 0))
     obj = ebb3_motion.EBBMotionWrap()
     obj.port = port
     obj.version = "3.0.3"; obj.version_parsed = ebb3_serial.parse("3.0.3")
@@ -162,7 +169,7 @@ def nontrivial(c, r):
     return any(k[0] == "motors_on" for k in c["calls"]) and (bd["en1"] or bd["en2"]) or any(k[0] == "var_write32" and abs(k[1]) >= 2**24 for k in c["calls"])
 
 def explain(c, r):
-    return {"board": {k: v for k, v in c["board"].items() if k != "slots"}, "calls": [list(map(str, x)) for x in c["calls"]],
+    return {"timed_out_reads_before_each_reply": c.get("slow", 0), "board": {k: v for k, v in c["board"].items() if k != "slots"}, "calls": [list(map(str, x)) for x in c["calls"]],
             "io_log": [e if isinstance(e, str) else e[1] for e in r.get("log", [])][:60],
             "observed": [{k: o[k] for k in ("raised", "ret", "writes", "err")} for o in r.get("obs", [])]}
 
